@@ -151,6 +151,33 @@ def rule_kernel_template(ctx):
                         elif not (isinstance(idx, ast.Name) and idx.id == ivar):
                             problems.append(f"store {src_of(t)} is not indexed by the block index `{ivar}` (write ranges of different threads may overlap)")
                         written.add(t.value.id)
+                    # partition domain: the size that is split into blocks must be an extent of an array that the kernel
+                    # indexes *directly* by the block index (the written array or one read at [i] / [i + 1]); a size taken
+                    # from an array that is only indexed indirectly (vec[indices[j]]) is the wrong dimension for any
+                    # non-square problem
+                    size_e = c.args[0] if c.args else None
+                    sdefs = _resolve_defs(f.node)
+                    hops = 0
+                    while isinstance(size_e, ast.Name) and size_e.id in sdefs and hops < 4:
+                        size_e = sdefs[size_e.id]
+                        hops += 1
+                    size_bases = set()
+                    if size_e is not None:
+                        for x in ast.walk(size_e):
+                            if isinstance(x, ast.Attribute) and x.attr in ("size", "shape") and isinstance(x.value, ast.Name):
+                                size_bases.add(x.value.id)
+                            if isinstance(x, ast.Call) and isinstance(x.func, ast.Name) and x.func.id == "len" and x.args and isinstance(x.args[0], ast.Name):
+                                size_bases.add(x.args[0].id)
+                    direct = set()
+                    for x in ast.walk(inner[0]):
+                        if isinstance(x, ast.Subscript) and isinstance(x.value, ast.Name) and x.value.id in arrays:
+                            i0 = x.slice.elts[0] if isinstance(x.slice, ast.Tuple) else x.slice
+                            if (isinstance(i0, ast.Name) and i0.id == ivar) or (isinstance(i0, ast.BinOp) and isinstance(i0.left, ast.Name) and i0.left.id == ivar):
+                                direct.add(x.value.id)
+                    if size_bases and not (size_bases & direct):
+                        problems.append(
+                            f"partitions `{src_of(c.args[0])}` = extent of {sorted(size_bases)}, but the block index `{ivar}` directly indexes only {sorted(direct)}: "
+                            "rows beyond that extent are never computed (or read out of bounds) when the two differ")
                     # reductions must go to locals: any AugAssign to a bare parameter name is a shared write
                     for n in ast.walk(f.node):
                         if isinstance(n, ast.AugAssign) and isinstance(n.target, ast.Name) and n.target.id in arrays:
@@ -160,7 +187,7 @@ def rule_kernel_template(ctx):
         ksize[f.name] = (f, _norm(c.args[0], defs) if c.args else None, c.args[0] if c.args else None, defs)
         if problems:
             for p in problems:
-                r.bad(Finding("kernel-template", q, p, where=where, operand=p[:40]))
+                r.bad(Finding("kernel-template", q, p, where=where, operand="partition-domain" if p.startswith("partitions `") else p[:40]))
         else:
             r.ok(q, sample={"kernel": q, "size": src_of(c.args[0]), "loop": src_of(outer.iter)})
     # wrappers
@@ -622,3 +649,135 @@ def rule_stride_siblings(ctx):
                     r.bad(Finding("stride-siblings", g.qualname, f"ranks do not write to their own output row (out={outs})", where=where, operand="row"))
     r.floor(nl, 2, "parallel launchers in builder.py")
     return r
+
+
+# ---------------------------------------------------------------------------
+# accumulating kernels need a zeroed target
+# ---------------------------------------------------------------------------
+
+def _accumulating_params(ctx, modname):
+    """{function name: set of parameter names the function only ever accumulates into (p[...] += ...),
+    directly or by handing p to another accumulating function of the module}."""
+    mod = ctx.prog.modules.get(modname)
+    if mod is None:
+        raise AnalysisError(f"module {modname} not found")
+    acc = {}
+    funcs = {f.name: f for f in mod.all_functions if f.parent is None and not f.is_alias and not isinstance(f.node, ast.Lambda)}
+    changed = True
+    while changed:
+        changed = False
+        for name, f in funcs.items():
+            for p in f.params:
+                if p in acc.get(name, set()):
+                    continue
+                direct = any(isinstance(x, ast.AugAssign) and isinstance(x.op, ast.Add) and isinstance(x.target, ast.Subscript)
+                             and isinstance(x.target.value, ast.Name) and x.target.value.id == p for x in ast.walk(f.node))
+                plain = any(isinstance(x, ast.Assign) and any(isinstance(t, ast.Subscript) and isinstance(t.value, ast.Name) and t.value.id == p for t in x.targets) for x in ast.walk(f.node))
+                via = False
+                for c in ast.walk(f.node):
+                    if isinstance(c, ast.Call) and isinstance(c.func, ast.Name) and c.func.id in funcs:
+                        callee = funcs[c.func.id]
+                        pos = list(callee.posparams)
+                        for k, a in enumerate(c.args):
+                            if isinstance(a, ast.Name) and a.id == p and k < len(pos) and pos[k] in acc.get(callee.name, set()):
+                                via = True
+                        for kw in c.keywords:
+                            if isinstance(kw.value, ast.Name) and kw.value.id == p and kw.arg in acc.get(callee.name, set()):
+                                via = True
+                if (direct or via) and not plain:
+                    acc.setdefault(name, set()).add(p)
+                    changed = True
+    return acc, funcs
+
+
+def rule_accumulator_initialised(ctx):
+    r = RuleResult(
+        "accumulator-initialised",
+        "the matrix-free kernels of quimb/operator/configcore.py only ever accumulate into their output (out[j] += ...): every "
+        "array handed to them as that output — directly, or row-wise through pool.submit — is, on every path, created by "
+        "zeros / zeros_like in the calling function or fully zeroed there before the call; an array that arrives from the "
+        "caller or from a cache, or is zeroed only in part while a later reduction sums all of it, makes the result depend "
+        "on what the array held before (serial and threaded forms then disagree)",
+    )
+    acc, _ = _accumulating_params(ctx, "quimb.operator.configcore")
+    if not acc:
+        raise AnalysisError("no accumulating kernels found in configcore")
+    n = 0
+    ZEROS = {"zeros", "zeros_like"}
+    for modname in ("quimb.operator.builder", "quimb.operator.hilbertspace", "quimb.operator.models"):
+        mod = ctx.prog.modules.get(modname)
+        if mod is None:
+            continue
+        for f in mod.all_functions:
+            if f.is_alias or isinstance(f.node, ast.Lambda):
+                continue
+            sites = []
+            for c in ast.walk(f.node):
+                if not isinstance(c, ast.Call):
+                    continue
+                fn = (dotted(c.func) or "").split(".")[-1]
+                args = list(c.args)
+                kws = {k.arg: k.value for k in c.keywords if k.arg}
+                if fn == "submit" and args:
+                    fn = (dotted(args[0]) or "").split(".")[-1]
+                    args = args[1:]
+                if fn not in acc:
+                    continue
+                callee = ctx.prog.func("quimb.operator.configcore", fn)
+                pos = list(callee.posparams)
+                for p in acc[fn]:
+                    a = kws.get(p)
+                    if a is None and p in pos and pos.index(p) < len(args):
+                        a = args[pos.index(p)]
+                    if a is not None:
+                        sites.append((c, fn, p, a))
+            for c, fn, p, a in sites:
+                n += 1
+                base = a
+                while isinstance(base, ast.Subscript):
+                    base = base.value
+                construct = f"{f.qualname}->{fn}[{p}]"
+                where = f"{f.module.relpath}:{c.lineno}"
+                if not isinstance(base, ast.Name):
+                    r.skip(construct, f"target `{src_of(a)}` not followed")
+                    continue
+                name = base.id
+                # every definition of the name in this function
+                defs = [x for x in ast.walk(f.node) if isinstance(x, ast.Assign) and any(isinstance(t, ast.Name) and t.id == name for t in x.targets) and x.lineno < c.lineno]
+                fresh = [d for d in defs if isinstance(d.value, ast.Call) and (dotted(d.value.func) or "").split(".")[-1] in ZEROS]
+                full_zero = [x for x in ast.walk(f.node) if getattr(x, "lineno", 10**9) < c.lineno and (
+                    (isinstance(x, ast.Assign) and any(isinstance(t, ast.Subscript) and isinstance(t.value, ast.Name) and t.value.id == name
+                                                       and (isinstance(t.slice, ast.Constant) and t.slice.value is Ellipsis or (isinstance(t.slice, ast.Slice) and t.slice.lower is None and t.slice.upper is None))
+                                                       for t in x.targets) and const_value(x.value, None) in (0, 0.0))
+                    or (isinstance(x, ast.Call) and isinstance(x.func, ast.Attribute) and x.func.attr == "fill" and isinstance(x.func.value, ast.Name) and x.func.value.id == name
+                        and x.args and const_value(x.args[0], None) in (0, 0.0))
+                )]
+                is_param = name in f.params
+                other_defs = [d for d in defs if d not in fresh]
+                problem = None
+                if is_param and not full_zero:
+                    # a caller-supplied array: fine only on the paths where it was replaced by a fresh one
+                    guarded_fresh = [d for d in fresh]
+                    cond_only = all(_under_none_test(f.node, d, name) for d in guarded_fresh) if guarded_fresh else True
+                    if cond_only:
+                        problem = f"`{name}` can be the caller's own array (only replaced by zeros when it is None): the kernel adds A·x to whatever it holds"
+                elif other_defs and not full_zero:
+                    problem = f"`{name}` can come from `{src_of(other_defs[0].value)[:50]}` (not a fresh zeros array) and is not fully zeroed before the kernels accumulate into it"
+                elif not fresh and not full_zero and not is_param:
+                    problem = f"`{name}` is never created by zeros / zeros_like nor fully zeroed in this function"
+                if problem:
+                    r.bad(Finding("accumulator-initialised", f.qualname, f"{fn}(... {p}={src_of(a)} ...): {problem}", where=where, operand=f"{fn}:{name}"))
+                else:
+                    r.ok(construct, sample={"caller": f.qualname, "kernel": fn, "target": src_of(a), "initialised by": src_of((fresh or full_zero)[0])[:60] if (fresh or full_zero) else ""})
+    r.floor(n, 2, "calls of accumulating kernels")
+    return r
+
+
+def _under_none_test(fnode, stmt, name):
+    """is stmt inside an `if <name> is None:` body?"""
+    for n in ast.walk(fnode):
+        if isinstance(n, ast.If) and any(stmt is x for b in n.body for x in ast.walk(b)):
+            t = n.test
+            if isinstance(t, ast.Compare) and isinstance(t.left, ast.Name) and t.left.id == name and isinstance(t.ops[0], ast.Is) and const_value(t.comparators[0], 0) is None:
+                return True
+    return False
